@@ -316,6 +316,45 @@ def _diff(got: List, ref: List) -> str:
 US = 1_000_000
 
 
+class StepBudget:
+    """Logical-step budget for RealTimeTradesToBar.main(): sys.monitoring LINE events of that one code object are
+    counted per scenario; a loop that stops awaiting (pure CPU, invisible to the event loop and to the virtual clock)
+    exhausts the budget and is interrupted by raising from the callback. Deterministic: no wall clock involved."""
+    TOOL = 3
+    LIMIT = 200_000
+    count = 0
+    exceeded = False
+    installed = False
+
+    @classmethod
+    def install(cls):
+        import sys
+        from basana.core import bar as bbar
+        if cls.installed:
+            return
+        mon = sys.monitoring
+        try:
+            mon.use_tool_id(cls.TOOL, "vf-step-budget")
+        except ValueError:
+            return
+        code = bbar.RealTimeTradesToBar.main.__code__
+
+        def on_line(c, line):
+            cls.count += 1
+            if cls.count > cls.LIMIT:
+                cls.exceeded = True
+                cls.count = 0
+                raise vclock.Livelock("RealTimeTradesToBar.main() executed more than 200000 lines in one scenario")
+        mon.register_callback(cls.TOOL, mon.events.LINE, on_line)
+        mon.set_local_events(cls.TOOL, code, mon.events.LINE)
+        cls.installed = True
+
+    @classmethod
+    def reset(cls):
+        cls.count = 0
+        cls.exceeded = False
+
+
 def gen_trade_case(r) -> Dict[str, Any]:
     dur = r.choice([1, 1, 2, 5, 10, 60, 60, 300, 3600])
     flush_delay = r.choice([0.5, 0.5, 0.0, 0.1, 1.0, 2.0])
@@ -443,8 +482,12 @@ def run_trade_case(case: Dict[str, Any], res: ShardResult) -> None:
                 await asyncio.gather(m, return_exceptions=True)
 
         loop.max_spins = 60_000
+        StepBudget.install()
+        StepBudget.reset()
         try:
             loop.run_until_complete(main())
+            if StepBudget.exceeded:
+                raise vclock.Livelock("RealTimeTradesToBar.main() looped without awaiting (step budget exhausted)")
         except vclock.Livelock as ex:
             # the aggregator keeps the event loop busy without ever sleeping: virtual time cannot advance (in real
             # time it would spin a core and emit nothing on schedule)
